@@ -674,6 +674,13 @@ func (c *Ctx) accessPathD(v ssa.Value, fr *Frame, d int) string {
 			}
 			return fname(f) + "(" + strings.Join(as, ",") + ")"
 		}
+		if b, ok := com.Value.(*ssa.Builtin); ok {
+			var as []string
+			for _, a := range com.Args {
+				as = append(as, c.accessPathD(a, fr, d+1))
+			}
+			return "builtin:" + b.Name() + "(" + strings.Join(as, ",") + ")"
+		}
 		return "call?"
 	case *ssa.Phi:
 		// a phi whose edges all have the same path is that path
